@@ -240,6 +240,28 @@ def statusJson : Status → Json
   | .exitMinus1 => "exit-1"
   | .raised e => errJson e
 
+
+partial def cvalOf (j : Json) : CVal :=
+  match j with
+  | .bool b => .bool b
+  | .str s => .str s.toList
+  | .num n => .int n.mantissa
+  | .arr a => .list (a.toList.map cvalOf)
+  | .obj _ => .map
+  | .null => .map
+
+partial def cvalJson : CVal → Json
+  | .bool b => b
+  | .str s => S s
+  | .int n => Json.num (JsonNumber.fromInt n)
+  | .list xs => Json.arr (xs.map cvalJson).toArray
+  | .map => Json.mkObj []
+
+def sourceOf (j : Json) : Source :=
+  match j with
+  | .obj kvs => kvs.toList.map (fun (k, v) => (k.toList, cvalOf v))
+  | _ => []
+
 def handle (j : Json) : Except String Json := do
   let op ← getStr j "op"
   match String.ofList op with
@@ -308,6 +330,16 @@ def handle (j : Json) : Except String Json := do
     let cfg := parseCfg (match j.getObjVal? "cfg" with | .ok v => v | .error _ => Json.mkObj [])
     pure (Json.mkObj [("entries", Json.arr ((m.entries cfg).map entryJson).toArray), ("wf", itemsWf false m.items),
       ("documented_class", itemsHaveDocumentedClass m.items)])
+  | "config" =>
+    -- sources in priority order (command line, -s file, user file, packaged defaults), each a flat {dotted.key: value}
+    let sources := (← (← j.getObjVal? "sources").getArr?).toList.map sourceOf
+    let filters := allContents (sources.take 3) (lit "input.exclude_filters")
+    match resolveAll sources with
+    | .error k => pure (Json.mkObj [("err", "type"), ("key", S k)])
+    | .ok vals =>
+      pure (Json.mkObj [("values", Json.mkObj (vals.map (fun (k, v) => (String.ofList k, match v with | some x => cvalJson x | none => Json.null)))),
+        ("filters", Json.arr (filters.map cvalJson).toArray),
+        ("dir_winner", match winner sources (lit "output.directory") with | some i => (i : Nat) | none => Json.null)])
   | "rstops" =>
     let hc ← getStr j "hc"
     let title ← getStr j "title"
